@@ -3008,12 +3008,13 @@ func lemmaForwardSession(raw *rawEnvelope) (e *Session, e3 *Session, accepted bo
 //@   ensures finN == old(finN) + 1 && finID == sessionID
 
 //@ func (*Server).handleChannel :: (srv, ctx, c) ()
-//@   props C14
+//@   props C03 C14
 //@   requires srv != nil && srv.config != nil && srv.mux != nil && ctx != nil
 //@   requires srvInv(c) && c.state == SessionStateNew && effStage(c.transport) == 0 && !c.startRcv.fired
 //@   requires srv.config.CompOpts != nil && srv.config.EncryptOpts != nil && srv.config.Authenticate != nil && srv.config.Register != nil
 //@   modifies c.cfgEnc, c.cfgComp, c.state, c.remoteNode, c.startRcv.fired, c.stopRcv.fired, c.transport.nRecv, c.transport.lastRecv, recvClock, c.transport.connected, c.transport.nSent, c.transport.lastSent, c.transport.nSentSes, c.transport.lastSes, c.transport.stage, c.transport.offerEnc, c.transport.offerComp, c.transport.offerSchemes, c.transport.confEnc, c.transport.confComp, c.transport.enc, c.transport.comp, authN, authClock, authIdentity, authArg, authRes, authErr, regN, regClock, regSeqAuth, regCand, regChan, regRes, regErr, estN, estID, estChan, finN, finID, c.cancel
 //@   oncall [C14] role:finished : c.startRcv.fired && a_sessionID == c.sessionID
+//@   oncall [C03,C14] role:established : c.state == SessionStateEstablished && a_sessionID == c.sessionID && a_ch == c  ## the application is told about a session only while that session is established
 //@   ensures [C14] @released !c.startRcv.fired ==> !c.transport.connected && estN == old(estN) && finN == old(finN)
 //@   ensures [C14] @nocallbacks estN == old(estN) && srv.config.Established != nil ==> finN == old(finN) && !c.transport.connected
 //@   ensures [C14] @atmostonce estN == old(estN) || (estN == old(estN) + 1 && estID == c.sessionID)
